@@ -45,13 +45,15 @@ def _pool():
     k = sympy.Symbol("k")
     cust = CustomGateDefinition("cg", sympy.Matrix([[sympy.cos(a), -sympy.sin(b)], [sympy.sin(b) * sympy.exp(sympy.I * a), sympy.cos(a)]]), (a, b))
     base = {
-        "RX(a)": RX(a), "RZ(a*b+1)": RZ(a * b + 1), "U3(a,b,c)": U3(a, b, c), "U3(a,0.3,a+b)": U3(a, 0.3, a + b), "XY(2*c)": XY(2 * c), "CPHASE(a/2)": CPHASE(a / 2),
+        "RX(a)": RX(a), "RZ(a*b+1)": RZ(a * b + 1), "RX(2*a+b)": RX(2 * a + b), "RZ(a-b+c)": RZ(a - b + c), "U3(a,b,c)": U3(a, b, c), "U3(a,0.3,a+b)": U3(a, 0.3, a + b), "XY(2*c)": XY(2 * c), "CPHASE(a/2)": CPHASE(a / 2),
         "custom(c, a+d)": cust(c, a + d), "custom(0.5, b)": cust(0.5, b), "RX(Sum)": RX(sympy.Sum(a * k, (k, 1, 3))), "RX(1.5)": RX(1.5), "X": X,
     }
     wrappers = {"id": lambda g: g, "c1": lambda g: g.controlled(1), "dag": lambda g: g.dagger, "c2.dag": lambda g: g.controlled(2).dagger, "dag.c1": lambda g: g.dagger.controlled(1)}
     maps = {
         "total-numeric": {a: 0.3, b: -1.2, c: 2.0, d: 0.7}, "partial": {a: 0.3}, "superfluous": {a: 0.3, sympy.Symbol("zz"): 9.0}, "empty": {},
         "symbolic-values": {a: d + 1, b: 2 * c}, "only-others": {sympy.Symbol("zz"): 1.0},
+        "zero-int": {a: 0, b: -1.2, c: 0}, "zero-float": {a: 0.0, d: 0.0}, "zero-sympy": {a: sympy.Integer(0), b: sympy.Float(0), c: sympy.S.Zero, d: 0},
+        "negative-and-one": {a: -1, b: 1, c: -2, d: 1.0},
     }
     return base, wrappers, maps, (a, b, c, d, k)
 
